@@ -133,6 +133,44 @@ example : finish (run {} [.setRaw ⟨0, [1]⟩, .write [9], .flush, .setRaw ⟨5
 example : finish (run {} [.write [9], .setRaw ⟨503, [2]⟩, .flush]).1 = [.body [9], .flush] ∧
     (run {} [.write [9], .setRaw ⟨503, [2]⟩, .flush]).2 = [.passed, .refused, .passed] := by decide
 
+/-! ## Two producers of raw responses: the prescribed one always wins -/
+
+/-- **prescribed_raw_wins.**  Whatever the handler would do for the rest of the response
+definition — write, flush, set headers, or install a raw response the server synthesises itself,
+any number of them in any order — a raw response prescribed by the test case is exactly what is
+sent: the recorder stores it and the handler never runs. -/
+theorem prescribed_raw_wins (r : Raw) (handler : List Op) :
+    finish (run {} (recorded (some r) handler)).1 = rawEvents r ∧
+    (run {} (recorded (some r) handler)).2 = [.accepted] := by
+  simp [recorded, run, step, finish, rawEvents]
+
+/-- without a prescribed raw response nothing changes: the handler decides -/
+theorem no_prescribed_raw_handler_decides (handler : List Op) :
+    finish (run {} (recorded none handler)).1 = wireSpec handler :=
+  (raw_xor_normal handler).1
+
+/-- **prescribed_raw_order.**  Why the handler must not run, for every order of the two
+`setRawResponse` calls: if the prescribed response `r` is stored at any point of an operation
+sequence that starts in raw mode, it is the one sent iff no raw response is stored after it — a
+synthesised one stored earlier loses, one stored later would replace it. -/
+theorem prescribed_raw_order (first : Raw) (before after : List Op) (r : Raw) :
+    finish (run {} (.setRaw first :: before ++ .setRaw r :: after)).1 = rawEvents ((lastRaw after).getD r) := by
+  have h := raw_mode_swallows first (before ++ .setRaw r :: after)
+  rw [List.cons_append] at *
+  rw [h]
+  have : ∀ (b : List Op), lastRaw (b ++ .setRaw r :: after) = some ((lastRaw after).getD r) := by
+    intro b
+    induction b with
+    | nil => simp only [List.nil_append, lastRaw]; cases lastRaw after <;> simp
+    | cons o t ih => cases o <;> simp [lastRaw, ih]
+  simp [this]
+
+/-- the two orders, concretely: synthesised (200) then prescribed (503) sends 503; prescribed then
+synthesised sends the synthesised one — the hazard `recorded` excludes -/
+example : finish (run {} [.setRaw ⟨200, [7]⟩, .write [9], .setRaw ⟨503, [2]⟩]).1 = [.header 503, .body [2]] ∧
+    finish (run {} [.setRaw ⟨503, [2]⟩, .write [9], .setRaw ⟨200, [7]⟩]).1 = [.header 200, .body [7]] ∧
+    finish (run {} (recorded (some ⟨503, [2]⟩) [.write [9], .setRaw ⟨200, [7]⟩])).1 = [.header 503, .body [2]] := by decide
+
 /-! ## Merging a raw definition into what is already there: the request target, the response headers -/
 
 section Merge
